@@ -7,7 +7,11 @@ a known timestamp not newer than a parsed If-Modified-Since, the default of the
 If-None-Match lookup can equal no ETag, 304 empties the body (C20.b); the ETag is a digest
 over all elements of etag_data, no_cache sets no-store, Last-modified only from a truthy
 timestamp (C20.c); size/timestamp capture on store and load (C20.d); error responses are
-never cacheable (C20.e)."""
+never cacheable (C20.e).
+Added in round 4: images derived from an uncacheable image stay uncacheable (C20.k); a store
+replaces the whole row, last_modified included (C20.l, shared C05.e); the compact cache records the
+size of a loaded tile when metadata is asked for (C20.m); a refreshed tile does not keep the time
+stamp and size of the tile it replaces (C20.n)."""
 import ast
 
 from ..engine import rule
